@@ -192,6 +192,7 @@ func runC19(c *Ctx) {
 	}
 	b.flush()
 	c19Dynamic(c)
+	c19Factories(c)
 }
 
 // ---- host-derived issuers
